@@ -130,6 +130,19 @@ def smapInsert {α : Type} : List (String × α) → String → α → List (Str
 def smapRemove {α : Type} (m : List (String × α)) (key : String) : List (String × α) :=
   m.filter (fun e => e.1 != key)
 
+/-! ### maps keyed by an opaque type (`OrderedMap<ChannelId, V>`, `Map<PaymentHash, V>`) as association lists without
+    duplicate keys.  The iteration order of the Rust map is NOT represented: the translator only admits the
+    order-insensitive operations `get`, `contains_key`, `insert`, `len`, `is_empty`, `values().sum()`. -/
+
+def omapGet {κ α : Type} [DecidableEq κ] : List (κ × α) → κ → Option α
+  | [], _ => none
+  | (k, v) :: r, key => if k = key then some v else omapGet r key
+
+/-- `m.insert(key, x)`: replaces the value of an existing key in place, otherwise appends -/
+def omapInsert {κ α : Type} [DecidableEq κ] : List (κ × α) → κ → α → List (κ × α)
+  | [], key, x => [(key, x)]
+  | (k, v) :: r, key, x => if k = key then (k, x) :: r else (k, v) :: omapInsert r key x
+
 /-- `a..b` -/
 def range (a b : Nat) : List Nat := List.range' a (b - a)
 
